@@ -17,6 +17,7 @@ RULE = ('Hypothesis draws (signing key from a 25-key pool of RSA/DSA/ECDSA/EdDSA
         'kind, carrier, mutation class, target field).')
 RULE += ' Round-2 class: issuer re-pointed to an encryption-only (ECDH) subkey of the verifying certificate. Round-3 / audit classes: a subject presented to a standalone or timestamp signature; the same photo attribute in another encoding (length form, reserved octets); undefined bits in flag subpackets; verification of a copy.copy() of the signature object as a further carrier.'
 RULE += ' Third-party confirmations (0x50) by the independent signer over signature A are presented with A, another signature, a document, a key and a user id.'
+RULE += ' Worker transcoded: a cleartext-signed file and its transcoding between UTF-8 and Latin-1 are different documents (each verifies only as signed).'
 ASSUMPTIONS = ['refpgp.sig (independent 5.2.4 implementation, self-tested on 62 GnuPG-made signatures) decides whether a mutation is semantic; '
                'mutations it still accepts are skipped as trivial', 'the left-16-bits field is not asserted (not named by the statement)',
                'DSA/ECDSA (r, n-s) malleability is excluded from the mutation set by construction',
@@ -597,6 +598,34 @@ def confirm(arg):
     return rec
 
 
+def transcoded(arg):
+    """a cleartext-signed file and the same file transcoded to another character set are different documents, octet for octet: the signature
+    made over one must not verify over the other (and does verify over its own) -- both ways between UTF-8 and Latin-1"""
+    import pgpy
+    fam, halg = arg
+    rec = harness.Rec()
+    sec = keypool.ref_secret(fam)
+    pub = keypool.pgpy_key(keypool.ref_cert(fam, secret=False))
+    text = 'caf\u00e9 au lait\nGr\u00fc\u00dfe aus K\u00f6ln\n- dash line\nlast'
+    for signed_as, other in (('utf-8', 'latin-1'), ('latin-1', 'utf-8')):
+        octets = text.encode(signed_as)
+        body = rsig.sign(sec, 0x01, halg, ('text', octets), keypool.std_hashed(1600000000, sec.pub.fingerprint), keypool.sp(16, sec.pub.keyid))
+        armored = armor.write_cleartext(text, wire.build_packet(2, body), [sigkit.HASHES[halg]])
+        for presented, must in ((signed_as, True), (other, False)):
+            case = {'kind': 'transcoded', 'fam': fam, 'halg': halg, 'signed_as': signed_as, 'presented_as': presented}
+            rec.case(('transcoded', fam, halg, signed_as, presented), True, ['carrier/cleartext-file', 'signed-as/' + signed_as, 'presented-as/' + presented],
+                     {'signer': fam, 'hash': halg, 'text_signed_as': signed_as, 'file_presented_as': presented})
+            try:
+                ok = bool(pub.verify(pgpy.PGPMessage.from_blob(armored.encode(presented))))
+            except Exception:   # noqa
+                ok = False
+            if ok and not must:
+                rec.finding('subject', 'cleartext-file-in-another-character-set-verifies/%s-as-%s' % (signed_as, presented), case, '')
+            if must and not ok:
+                rec.finding('control', 'cleartext-file-does-not-verify-as-signed/' + signed_as, case, '')
+    return rec
+
+
 def _sign_raw(sec, halg, hashed, unh):
     """-> (pkalg, halg, hashed, unhashed, left16, mpis) of a type-0x50 signature whose hash input is the trailer alone"""
     pre = bytes([4, 0x50, sec.pub.alg, halg]) + len(hashed).to_bytes(2, 'big') + hashed
@@ -613,6 +642,7 @@ def run(tier, seed):
             tasks.append(('matrix', (f, part, 2, 2 if tier == 'quick' else 6)))
     for j, f in enumerate(fams if tier == 'thorough' else fams[:6]):
         tasks.append(('confirm', (f, sigkit.HASH_IDS[(j + seed) % 4])))
+        tasks.append(('transcoded', (f, sigkit.HASH_IDS[(j + seed + 1) % 4])))
     n = 260 if tier == 'quick' else 6000
     budget = 70 if tier == 'quick' else 900
     for i in range(16 if tier == 'quick' else 32):
@@ -625,6 +655,9 @@ def dispatch(task):
 
 
 def replay(case):
+    if case.get('kind') == 'transcoded':
+        r = transcoded((case['fam'], case['halg']))
+        return [(f['clause'], f['cause'], f['detail']) for f in r.findings]
     if case.get('kind') == 'confirm':
         r = confirm((case['fam'], case['halg']))
         return [(f['clause'], f['cause'], f['detail']) for f in r.findings]
